@@ -12,6 +12,8 @@ What runs on the real code
     auto on SQLite over generated criteria and SET clauses, objects loaded (some attributes
     expired); direct oracle = every loaded attribute equals the row now in the database, and
     an object is gone from the session iff its row is gone (expired objects are accepted)
+  * ORM bulk UPDATE by primary key (session.execute(update(E), [dicts])) and bulk
+    INSERT..RETURNING over mixed loaded / unloaded / partially expired targets, same oracle
   * correspondence: per-object value of the real evaluator closure vs evalPyB; SQLite's value
     of the rendered criteria vs evalSqlB; session outcome and database row after the
     statement vs syncUpdate*/syncDelete*/dbUpdate
@@ -534,6 +536,100 @@ class World:
         return out
 
 
+def run_bulk_pk(w, sc):
+    """ORM bulk UPDATE by primary key / bulk INSERT..RETURNING over mixed loaded / unloaded /
+    partially expired targets.  Returns (canonical line, oracle problem or None)."""
+    from sqlalchemy import insert, select, update
+    from sqlalchemy.orm import Session
+
+    A = w.A
+    rows, loaded, expire, params, mode, form = sc["rows"], sc["loaded"], sc["expire"], sc["params"], sc["mode"], sc["form"]
+    why = None
+    with Session(w.eng) as sess:
+        sess.execute(A.__table__.delete())
+        sess.execute(A.__table__.insert(), [dict({"id": pk}, **{"i%d" % i: v for i, v in enumerate(vals)}, s0=None, s1=None) for pk, vals in rows])
+        objs = {}
+        for pk in loaded:
+            objs[pk] = sess.get(A, pk)
+        for pk, xi in expire.items():
+            if int(pk) in objs and xi:
+                sess.expire(objs[int(pk)], ["i%d" % i for i in xi])
+        dicts = [dict({"id": pk}, **{"i%d" % c: v for c, v in cols}) for pk, cols in params]
+        err = None
+        try:
+            if form == "update":
+                opts = {} if mode is None else {"synchronize_session": mode}
+                sess.execute(update(A), dicts, execution_options=opts)
+            else:
+                got = sess.execute(insert(A).returning(A), dicts).scalars().all()
+                for o in got:
+                    objs[o.id] = o
+        except Exception as e:
+            err = "raise:" + type(e).__name__
+        db = {r.id: [getattr(r, "i%d" % i) for i in range(NI)] for r in sess.execute(select(A.__table__)).all()}
+        parts = []
+        for pk in sorted(db):
+            o = objs.get(pk)
+            if o is None:
+                parts.append("%d/%s/U" % (pk, show_ints(db[pk])))
+                continue
+            d = o.__dict__
+            vals = []
+            for i in range(NI):
+                key = "i%d" % i
+                if key not in d:
+                    vals.append("X")
+                else:
+                    vals.append("N" if d[key] is None else str(d[key]))
+                    if d[key] != db[pk][i] and why is None:
+                        why = "%s by primary key %s (synchronize_session=%s): loaded object %d has %s=%r, the database has %r" % (
+                            "bulk UPDATE" if form == "update" else "bulk INSERT..RETURNING", [p[0] for p in params], mode, pk, key, d[key], db[pk][i])
+            parts.append("%d/%s/%s" % (pk, show_ints(db[pk]), ",".join(vals)))
+        if form == "insert" and err is None and sorted(o.id for o in got) != sorted(p[0] for p in params) and why is None:
+            why = "bulk INSERT..RETURNING returned ids %s for parameter ids %s" % ([o.id for o in got], [p[0] for p in params])
+        if err and why is None:
+            why = "the statement raised %s" % err[6:]
+        sess.rollback()
+    return (err or ";".join(parts)), why
+
+
+def gen_bulk_pk(rng):
+    n = rng.randint(2, 7)
+    pks = rng.sample(range(1, 20), n)
+    rows = [(pk, [rng.choice([None, 0, 1, 2, 5]) for _ in range(NI)]) for pk in pks]
+    form = "update" if rng.random() < 0.8 else "insert"
+    if form == "update":
+        loaded = [pk for pk in pks if rng.random() < 0.55]
+        expire = {str(pk): sorted(rng.sample(range(NI), rng.randint(1, 2))) for pk in loaded if rng.random() < 0.2}
+        targets = rng.sample(pks, rng.randint(1, n))
+        if rng.random() < 0.3:
+            targets = sorted(targets)
+        same_keys = rng.random() < 0.6
+        keys = sorted(rng.sample(range(NI), rng.randint(1, NI)))
+        params = []
+        for pk in targets:
+            ks = keys if same_keys else sorted(rng.sample(range(NI), rng.randint(1, NI)))
+            params.append((pk, [(c, rng.choice([None, 3, 4, 7, 9])) for c in ks]))
+        mode = rng.choice([None, "evaluate", "auto"])
+    else:
+        loaded, expire = [pk for pk in pks if rng.random() < 0.4], {}
+        new = [pk for pk in rng.sample(range(20, 40), rng.randint(1, 4))]
+        params = [(pk, [(c, rng.choice([None, 3, 4, 7])) for c in range(NI)]) for pk in new]
+        mode = None
+    return {"rows": rows, "loaded": loaded, "expire": expire, "params": params, "mode": mode, "form": form}
+
+
+def bulk_pk_request(sc):
+    ps = "|".join("%d=%s" % (pk, ".".join("%d:%s" % (c, "N" if v is None else v) for c, v in cols) or "-") for pk, cols in sc["params"])
+    slots = []
+    for pk, vals in sorted(sc["rows"]):
+        if pk in sc["loaded"]:
+            slots.append("%d/%s/L/%s/%s" % (pk, show_ints(vals), show_ints(vals), show_nats(sc["expire"].get(str(pk), []))))
+        else:
+            slots.append("%d/%s/U/-/-" % (pk, show_ints(vals)))
+    return "eval bulkpk %s %s" % (ps, ";".join(slots))
+
+
 def oracle(kind, res, k):
     """the property on one object: loaded attributes equal the database row; membership follows the row"""
     p = res["per"][k]
@@ -711,7 +807,7 @@ def run(ctx, deep=False):
     # ---- (1) evaluator closure / SQLite value per row
     c1, i1, r1 = [], [], []
     c2, i2, r2 = [], [], []
-    n_eval = 3000 if thorough else 800
+    n_eval = 3000 if thorough else 550
     pool_rows = [gen_row(ctx.rng) for _ in range(60)]
     pool_rows += [([a, b, 0], [s, "a"]) for a, b in itertools.product([None, -7, 0, 3], repeat=2) for s in (None, "a%b")]
     for n in range(n_eval):
@@ -742,7 +838,7 @@ def run(ctx, deep=False):
 
     # ---- (2) the bulk statements end to end
     cases = witnesses()
-    n_dml = 4000 if thorough else 800
+    n_dml = 4000 if thorough else 550
     for _ in range(n_dml):
         cases.append(gen_dml_case(ctx.rng, weird=ctx.rng.random() < 0.1))
     c3, i3, r3 = [], [], []
@@ -769,6 +865,20 @@ def run(ctx, deep=False):
                 i3.append(session_outcome(case["kind"], res, k, case["expire"]))
                 r3.append(reqs[k])
 
+    # ---- (3) ORM bulk UPDATE by primary key / bulk INSERT..RETURNING
+    c4, i4, r4 = [], [], []
+    for _ in range(2500 if thorough else 300):
+        sc = gen_bulk_pk(ctx.rng)
+        line, why = run_bulk_pk(w, sc)
+        ctx.case(("bulkpk", str(sc)), nontrivial=len(sc["params"]) > 1)
+        ctx.count("bulk-by-pk=%s/%s" % (sc["form"], sc["mode"]))
+        if why:
+            ctx.violation("c43-oracle:bulk-%s-by-pk" % sc["form"], {"bulkpk": jsonable_bulk(sc)}, why)
+        if sc["form"] == "update":
+            c4.append(jsonable_bulk(sc))
+            i4.append(line)
+            r4.append(bulk_pk_request(sc))
+
     if not ctx.driver_ok():
         for case, k, why, _ in pending:
             ctx.violation("c43-oracle", dict(jsonable(case), obj=k), why)
@@ -777,6 +887,7 @@ def run(ctx, deep=False):
     m2 = ctx.driver(r2)
     ctx.correspond("corr/c43:evaluator-closure-vs-Model.Evaluator.evalPyB", c1, i1, m1)
     ctx.correspond("corr/c43:sqlite-value-vs-Model.Evaluator.evalSqlB", c2, i2, m2)
+    ctx.correspond("corr/c43:bulk-update-by-pk-vs-Model.Evaluator.bulkByPk", c4, i4, ctx.driver(r4))
     # known-finding shapes of the criteria / SET values are data dependent: ask the model which guards fail
     m3 = ctx.driver(r3)
     keep = []
@@ -846,6 +957,11 @@ def run(ctx, deep=False):
     ctx.exhaustive = False
 
 
+def jsonable_bulk(sc):
+    return {"rows": [[pk, list(v)] for pk, v in sc["rows"]], "loaded": list(sc["loaded"]), "expire": sc["expire"],
+            "params": [[pk, [list(cv) for cv in cols]] for pk, cols in sc["params"]], "mode": sc["mode"], "form": sc["form"]}
+
+
 def id_of(c):
     return (str(c["tree"]), str(c["rows"]), c["mode"], c["kind"], str(c.get("sets")))
 
@@ -864,6 +980,13 @@ def search(ctx, broken):
 
 def replay(ctx, obj):
     c = obj["case"]
+    if "bulkpk" in c:
+        b = c["bulkpk"]
+        sc = {"rows": [(r[0], r[1]) for r in b["rows"]], "loaded": b["loaded"], "expire": b["expire"],
+              "params": [(p[0], [tuple(cv) for cv in p[1]]) for p in b["params"]], "mode": b["mode"], "form": b["form"]}
+        line, why = run_bulk_pk(World(), sc)
+        print("replay C43 bulk %s by pk params=%s loaded=%s mode=%s -> %s ; oracle: %s" % (sc["form"], sc["params"], sc["loaded"], sc["mode"], line, why))
+        return why is not None
     case = case_from_json(c)
     w = World()
     res = w.run_dml(case["kind"], case["mode"], case["tree"], case["sets"], case["rows"], case["expire"])
